@@ -601,12 +601,12 @@ class Folder:
 
     def e_Slice(self, n, env):
         parts = [self.ev(x, env) if x is not None else None for x in (n.lower, n.upper, n.step)]
-        if not all(p is None or (isinstance(p, int) and not isinstance(p, bool)) for p in parts):
+        if not all(p is None or (isinstance(p, int) and not isinstance(p, bool)) or (self.symbolic and isinstance(p, (Sym, Opaque))) for p in parts):
             raise Refuse("slice with non-integer bounds")
         return slice(*parts)
 
     def c_slice(self, a, kw):
-        if kw or not 1 <= len(a) <= 3 or not all(p is None or (isinstance(p, int) and not isinstance(p, bool)) for p in a):
+        if kw or not 1 <= len(a) <= 3 or not all(p is None or (isinstance(p, int) and not isinstance(p, bool)) or (self.symbolic and isinstance(p, (Sym, Opaque))) for p in a):
             raise Refuse("slice()")
         return slice(*a)
 
@@ -661,6 +661,8 @@ class Folder:
             if cv is not None:
                 return cv[0]
             raise Raised("AttributeError", n)
+        if isinstance(v, slice) and n.attr in ("start", "stop", "step"):
+            return getattr(v, n.attr)
         if isinstance(v, Opaque) and n.attr in v.fields:
             return v.fields[n.attr]
         if self.symbolic and isinstance(v, Opaque) and v.tag != "callable":
@@ -695,6 +697,16 @@ class Folder:
         if isinstance(recv, list) and f.attr == "append":
             recv.append(args[0])
             return None
+        if isinstance(recv, slice) and f.attr == "indices" and len(args) == 1:
+            n_ = args[0]
+            if all(x is None or (isinstance(x, int) and not isinstance(x, bool)) for x in (recv.start, recv.stop, recv.step)) and isinstance(n_, int):
+                return tuple(recv.indices(n_))
+            if self.symbolic and recv.step in (None, 1):
+                # bounds of the slice resolved against an axis of length n: a term per bound (None is the full extent)
+                lo = 0 if recv.start is None else Sym("slice_start", [recv.start, n_])
+                hi = n_ if recv.stop is None else Sym("slice_stop", [recv.stop, n_])
+                return (lo, hi, 1)
+            raise Refuse("slice.indices")
         if isinstance(recv, dict) and f.attr == "update" and len(args) <= 1 and (not args or isinstance(args[0], dict)):
             if args:
                 recv.update(args[0])
@@ -918,13 +930,22 @@ class Folder:
             return any(tg.label.split(".")[-1] == v.fields["__class__"] for tg in tags)
         if isinstance(v, Opaque) and all(isinstance(tg, Opaque) and tg.tag == "callable" for tg in tags):
             return any(tg.label.split(".")[-1] == v.tag.split(".")[-1] for tg in tags)
+        if self.symbolic and isinstance(v, (Obj, Opaque)) and all(isinstance(tg, (TypeTag, Opaque)) for tg in tags):
+            # a typed stand-in against a mix of builtin types and repository classes: builtins never match it
+            cls_tags = [tg for tg in tags if isinstance(tg, Opaque) and tg.tag == "callable"]
+            name = v.fields.get("__class__") if isinstance(v, Obj) else v.tag.split(".")[-1]
+            if isinstance(name, str):
+                return any(tg.label.split(".")[-1] == name for tg in cls_tags)
         vt = type_tag_of(v)
+        hit = False
         for tg in tags:
+            if isinstance(tg, Opaque) and tg.tag == "callable" and self.symbolic and not isinstance(v, (Obj, Opaque, Sym)):
+                continue  # a plain Python value is not an instance of a repository / numpy class
             if not isinstance(tg, TypeTag):
                 raise Refuse("isinstance with non-builtin type")
             if tg.name == vt or (tg.name == "int" and vt == "bool"):
-                return True
-        return False
+                hit = True
+        return hit
 
     def c_hasattr(self, a, kw):
         o, nme = a
@@ -1220,6 +1241,10 @@ class Folder:
             env[t.id] = v
         elif isinstance(t, (ast.Tuple, ast.List)):
             vs = v.data if isinstance(v, Arr) else v
+            if self.symbolic and isinstance(v, (Sym, Opaque)) and not any(isinstance(e, ast.Starred) for e in t.elts):
+                # unpacking a symbolic sequence: its items, by position
+                label = v.label if isinstance(v, Opaque) else repr(v)
+                vs = [Sym(f"{label}[{i}]", recv=v, attr="[]", index=("value", i)) for i in range(len(t.elts))]
             if not isinstance(vs, (list, tuple)) or len(vs) != len(t.elts):
                 raise Refuse("unpack")
             for tt, vv in zip(t.elts, vs):
